@@ -135,6 +135,7 @@ def helper_processors(ctx):
 def check(ctx):
     run = ctx.run
     framework.r1_dispatch(ctx)
+    framework.r1c_chain_complete(ctx)
     framework.r1a_arity(ctx)
     framework.r1m_stateless_dispatch(ctx)     # before R1k: a memo moves the decision out of the paths R1k replays
     framework.r1k_dispatch_by_kind(ctx)
